@@ -49,6 +49,8 @@ type SeqDouble struct {
 	submits [][][]byte
 	nextID  int
 	Delay   func()
+	// Auto, if set, makes up a response whenever the script is empty (n = number of responses released so far)
+	Auto func(n int) *SeqResp
 }
 
 // NewSeqDouble creates a scripted sequencing layer.
@@ -87,6 +89,13 @@ func (s *SeqDouble) GetNextBatch(ctx context.Context, req coresequencer.GetNextB
 	s.mu.Lock()
 	defer s.mu.Unlock()
 	call := SeqCall{Seq: len(s.calls), LastBatchData: req.LastBatchData}
+	if len(s.script) == 0 && s.Auto != nil {
+		if a := s.Auto(s.nextID); a != nil {
+			a.ID = s.nextID
+			s.nextID++
+			s.script = append(s.script, *a)
+		}
+	}
 	if len(s.script) == 0 {
 		s.calls = append(s.calls, call)
 		return nil, nil
